@@ -44,7 +44,12 @@ Print Assumptions callback_positions_any_newline.
    push_field) in any order -- this is what covers the stylesheet formatter and any other client
    of the stream: emmet/stylesheet/format.py calls only these operations (its raw pushes are fixed
    fragments, numbers, colors and the stylesheet.between/after options; LF-free for the documented
-   defaults).  Its call sequence itself is not modelled; the check runs the position oracle on it. *)
+   defaults).  Its call sequence itself is not modelled; the check runs the position oracle on it.
+   It also covers callbacks that return something else than what they are given (an editor tabstop
+   `${1:x}` for a field, escaped text): the stream only uses the RETURNED string, so such a run is
+   again a sequence of these operations with the returned strings as arguments (returned text LF-free;
+   a returned field string may contain line feeds).  The formatter theorems above fix the documented
+   default callbacks (identity); the check runs the position oracle with rewriting callbacks too. *)
 Theorem stream_positions f o a e b :
   fmt_lf f -> reach f o -> chron o = a ++ e :: b ->
   os_value o = text_of a ++ ev_text e ++ text_of b /\
